@@ -601,11 +601,20 @@ func evalSim(r *runner, u *parseUnit, c ParseCase, prop string) string {
 	}
 	o := u.ps.NewSession().Parse(u.ptoks(c.Toks), -1, false)
 	r.col.Eval()
+	if sim.StepLimit {
+		// The resolved reference machine itself does not come to an end on this
+		// input (a cycle of empty reductions, e.g. A : B A | empty ; B : empty
+		// under -a): "the reductions of the resolved machine" are then an endless
+		// sequence, and a parser that performs them does what the property says.
+		// Only a panic is still wrong.
+		r.col.Class("reference_machine_does_not_terminate")
+		if o.Panic != "" {
+			return sane(u, c, o)
+		}
+		return ""
+	}
 	if m := sane(u, c, o); m != "" {
 		return m
-	}
-	if sim.StepLimit {
-		return ""
 	}
 	if o.ErrNil != sim.Accepted {
 		return fmt.Sprintf("grammar:\n%s\ninput %v: Parse returned err==nil: %v; the reference machine accepts: %v (recoveries %d)", u.src, c.Toks, o.ErrNil, sim.Accepted, sim.Recoveries)
